@@ -69,6 +69,20 @@ def model_check(rep):
     return ok
 
 
+def reading():
+    """X03_PANICLOSES / X03_STALETICK = doc | code | either (default either) select the reading the schedules are judged with,
+    e.g. X03_PANICLOSES=doc for a tree with fixes/srv-daemon-keep-errors-on-panic.diff applied."""
+    return dict(PanicLoses=os.environ.get("X03_PANICLOSES", "either"), StaleTick=os.environ.get("X03_STALETICK", "either"))
+
+
+def variant(cfg):
+    """cfg text with the divergence constants set to the selected reading"""
+    text = open(os.path.join(tlc.SPEC, COMP, cfg)).read()
+    for const, val in reading().items():
+        text = text.replace('%s = "either"' % const, '%s = "%s"' % (const, val))
+    return text
+
+
 def generate(rep, quick, seed):
     jobs = [("Daemon_small.cfg", dict(workers=1, timeout=900), "all", "all driver schedules of length <= 5 (one configuration per mode x pace; "
              "Inv and the action property NoRestartAfterStop checked on the way)"),
@@ -78,7 +92,7 @@ def generate(rep, quick, seed):
             ("Daemon_sim.cfg", dict(workers=1, timeout=1500, simulate=dict(num=200 if quick else 5000), depth=20, seed=seed), "sim",
              "random schedules: up to 6 base runs, 2 waiters, 2 closers, all outcome kinds")]
     with cf.ThreadPoolExecutor(max_workers=3) as ex:
-        futs = [ex.submit(tlc.run_tlc, COMP, "DaemonAbs", cfg, **kw) for cfg, kw, _, _ in jobs]
+        futs = [ex.submit(tlc.run_tlc, COMP, "DaemonAbs", "X03_" + cfg, files={"X03_" + cfg: variant(cfg)}, **kw) for cfg, kw, _, _ in jobs]
         results = [f.result() for f in futs]
     out = {}
     for (cfg, kw, kind, note), r in zip(jobs, results):
@@ -182,7 +196,7 @@ def run(rep, tier, seed, replay_file=None):
         "documented-vs-actual divergences are accepted both ways in the judged schedules (constants PanicLoses / StaleTick = \"either\") and demonstrated "
         "separately (coverage.documented_vs_actual): they are never a violation",
         "time is not modelled: minInterval is driven at 0 (restart immediate) and 1h (no restart observable at any quiescent point); a restart passes "
-        "through a runtime timer that the goroutine census cannot see, so an observation in which too little has happened is re-examined for up to ~4 s "
+        "through a runtime timer that the goroutine census cannot see, so an observation in which too little has happened is re-examined for up to ~2 s "
         "before it is believed (patience delays a verdict, it never creates one)",
         "a goroutine snapshot with no running/runnable goroutine is a fixed point (rt.Quiesce, DESIGN 3.3)",
         "bursts (base run returns, cancel at once): the spec allows exactly the outcomes of the interleavings of DaemonImpl.tla (error examined before / "
@@ -225,6 +239,7 @@ def run(rep, tier, seed, replay_file=None):
     else:
         rep.cov["helpers"] = "props/x03_helpers.py not present: HelpersAbs part not run"
     rep.cov["documented_vs_actual"] = div
+    rep.cov["reading"] = reading()
     for d in div:
         print("DIVERGENCE-CANDIDATE %s: %s (%s of %s behaviours under the documented reading)" % (
             d.get("name"), d.get("status", "listed"), d.get("real_code_deviates_in", "?"), d.get("behaviours_under_documented_reading", "?")))
